@@ -129,6 +129,14 @@ package ice
 //@   props C18
 //@   opt nosafety
 //@   site call gatherCandidatesLocalUDPMux#1 assert mux-host-candidates-only-if-a-udp-type-is-enabled: has(networks, "udp")
+//@   ghostvar pendingUDP int = 0
+//@   site call listenUDPInPortRange#1 ghost pendingUDP := ite(result1 == nil, 1, 0)
+//@   site call append#2 ghost pendingUDP := 0
+//@   site call closeConnAndLog#2 assert C09 closes-the-socket-it-just-opened: arg0.payload == conn.payload
+//@   site call closeConnAndLog#2 ghost pendingUDP := 0
+//@   loop 2 invariant C09 no-udp-socket-of-an-earlier-address-is-pending: pendingUDP == 0
+//@   loop 3 invariant C09 no-udp-socket-of-an-earlier-mapping-is-pending: pendingUDP == 0
+//@   loop 4 invariant C09 a-udp-socket-opened-for-a-transport-is-queued-for-a-candidate-or-closed: pendingUDP == 0
 //@   ghostvar enabledNT bool = false
 //@   site call determineNetworkType#1 assert classifies-this-transport-and-address: arg0 == network && arg1 == mappedIP
 //@   site call Contains#1 assert looks-the-combination-up-in-the-enabled-network-types: arg0 == networkTypes && arg1 == networkType
